@@ -29,7 +29,7 @@ from gallia.services.uds.core.exception import ResponseException
 from gallia.services.uds.server import RandomUDSServer, UDSServerTransport
 from gallia.transports import TargetURI
 
-OUTCOMES = ["asis", "asis", "asis", "timeout", "truncated", "foreign", "reset", "pending", "late", "empty_line"]
+OUTCOMES = ["asis", "asis", "asis", "timeout", "truncated", "foreign", "reset", "pending", "late", "empty_line", "reset_refuse", "pending_storm"]
 
 
 class HistoryConfig(UDSScannerConfig):
@@ -138,7 +138,15 @@ class FaultPeer:
                         loop.call_later(self.plan["late_delay"], send, genuine)
                 elif outcome == "empty_line":
                     writer.write(b"\n")
-                elif outcome == "reset":
+                elif outcome == "pending_storm":
+                    # an ECU stuck in responsePending: the client gives up with an error of its own after its limit
+                    for _ in range(125):
+                        send(bytes([0x7F, pdu[0], 0x78]))
+                elif outcome in ("reset", "reset_refuse"):
+                    if outcome == "reset_refuse":
+                        # the ECU is gone for a while: reconnect attempts are refused
+                        self.world.net.set_listener(("tcp", "ecu", 1), "refuse")
+                        loop.call_later(1.5, self.world.net.set_listener, ("tcp", "ecu", 1), "accept")
                     conn = writer.transport.conn  # type: ignore[attr-defined]
                     conn.s._closing = True
                     conn.s2c.drop_pending()
@@ -220,6 +228,8 @@ class C11(Check):
         # separate configuration: transient "database is locked" errors on row inserts (another process reads the database);
         # row ORDER is not judged there (the handler re-queues the row), completeness after close still is
         plan["db_locked"] = sorted(rng.sample(range(0, 60), rng.choice([1, 2, 4]))) if rng.random() < 0.2 else []
+        # ... or on the statement that completes the run meta at teardown (rows still queued must survive that)
+        plan["db_locked_run_meta"] = rng.random() < 0.1
         plan["net_seed"] = rng.getrandbits(30)
         plan["segment"] = rng.choice(["whole", "random"])
         return plan
@@ -258,6 +268,11 @@ class C11(Check):
         ins = {"n": 0, "fired": 0}
 
         def db_fault(conn: Any, sql: str) -> Exception | None:
+            if plan.get("db_locked_run_meta") and sql.startswith("UPDATE run_meta SET end_time") and not ins.get("meta_fired"):
+                ins["meta_fired"] = 1
+                import sqlite3 as _sq
+
+                return _sq.OperationalError("database is locked")
             if "INSERT INTO scan_result" not in sql:
                 return None
             k = ins["n"]
@@ -269,7 +284,7 @@ class C11(Check):
                 return _sq.OperationalError("database is locked")
             return None
 
-        if locked:
+        if locked or plan.get("db_locked_run_meta"):
             world.sql.fault = db_fault
         world.install(capture=lambda r: "Could not log messages to database" in r.getMessage() or "Database worker died" in r.getMessage())
         # wire monitor at the transport seam, tagged with the calling task
@@ -328,6 +343,8 @@ class C11(Check):
         open_by_actor: dict[str, dict[str, Any]] = {}
         in_call: dict[str, int | None] = {}
         toggles = [e[1] for e in ev if e[3] == "toggle"]
+        toggle_seqs = [(e[0], e[4]["on"]) for e in ev if e[3] == "toggle"]
+        call_end_seq: dict[int, int] = {}
         sig_t = cmd.sig_fired[0] if cmd.sig_fired else None  # type: ignore[attr-defined]
         fin_t = next((e[1] for e in ev if e[3] == "db_finish_begin"), None)
         if sig_t is not None and fin_t is not None and sig_t >= fin_t - 1e-9:
@@ -342,6 +359,7 @@ class C11(Check):
                 open_by_actor.pop(actor, None)
             elif kind == "call_end":
                 in_call[actor] = None
+                call_end_seq[d["k"]] = seq
                 x = open_by_actor.pop(actor, None)
                 if x is not None:
                     x["t1"] = t
@@ -361,11 +379,13 @@ class C11(Check):
                 if x is not None:
                     x["reads"].append(d["data"])
                     x["t_last"] = t
+                    x["seq_last"] = seq
             elif kind == "wire_read_exc":
                 x = open_by_actor.get(actor)
                 if x is not None:
                     x["errs"].append(d["error"])
                     x["t_last"] = t
+                    x["seq_last"] = seq
         end_t = out["vtime"]
         calls = {c["k"]: c for c in cmd.calls}
         # ---- rows
@@ -389,9 +409,17 @@ class C11(Check):
             optional = False
             if sig_t is not None and t1 >= sig_t - 1e-9:
                 optional = True  # in flight (or started) when the run was cancelled
-            if any(x["t0"] - 1e-9 <= tt <= t1 + 1e-9 for tt in toggles):
+            # order by the simulator's event sequence numbers, not by (tying) virtual time
+            end_seq = call_end_seq.get(x["k"]) if x["k"] is not None and x["k"] in call_end_seq else x.get("seq_last", x["seq"])
+            if x["k"] is None:
+                # the monitor does not see when a foreign task's request() returns: widen by the events of the same instant
+                end_seq = max([end_seq] + [e[0] for e in ev if abs(e[1] - t1) < 1e-9])
+            if any(x["seq"] <= ts <= end_seq for ts, _ in toggle_seqs):
                 optional = True
-            on = logging_on_at(t1)
+            on = True
+            for ts, st in toggle_seqs:
+                if ts < end_seq:
+                    on = st
             if not on and not optional:
                 continue
             c = calls.get(x["k"]) if x["k"] is not None else None
@@ -414,6 +442,24 @@ class C11(Check):
         for c in cmd.calls:
             if c["k"] not in on_wire and c["out"] in ("cancelled", "inflight"):
                 expected.append({"req": c["pdu"], "reply": None, "exc": "?", "optional": True, "call": c, "x": {"actor": "main", "t0": c["t0"]}, "must_absent": False})
+        # a task cancelled while it still waits for the client (tester-present worker stopped at teardown) leaves a row
+        # without reply and without exception for a request that never reached the wire: tolerated, counted
+        phantom = []
+        kept_rows = []
+        cancelled_calls = [c_ for c_ in cmd.calls if c_["out"] in ("cancelled", "inflight") and c_["k"] not in {x["k"] for x in exchanges}]
+        for row in rows:
+            rq_ = bytes.fromhex(row[1])
+            vt_ = row[4] - world.epoch
+            later_write = any((bytes.fromhex(x["req"]) if isinstance(x["req"], str) else x["req"]) == rq_ and x["t0"] >= vt_ - 1e-4 for x in exchanges)
+            is_planned_cancel = any(c_["pdu"] == rq_ for c_ in cancelled_calls)
+            if row[2] is None and row[3] is None and not later_write and not is_planned_cancel:
+                # send stamp taken, but this request was never written afterwards: its task was cancelled while waiting for the client
+                phantom.append(row)
+            else:
+                kept_rows.append(row)
+        if phantom:
+            bump(res["probes"], "row_for_request_cancelled_before_the_wire", len(phantom))
+            rows = kept_rows
         # align rows with the expected exchanges: mandatory ones in order, optional ones anywhere (possibly absent)
         mand = [x for x in expected if not x["optional"]]
         opt = [x for x in expected if x["optional"]]
@@ -571,6 +617,8 @@ class C11(Check):
                 bump(res["faults"], "peer_" + o)
         if crash:
             bump(res["faults"], "crash_" + crash["kind"])
+        if ins.get("meta_fired"):
+            bump(res["faults"], "db_locked_on_run_meta_update")
         if sig_t is not None:
             bump(res["probes"], "sigint_fired")
         if toggles:
